@@ -31,8 +31,35 @@ type c03Scn struct {
 // hang / invariants only)
 var c03Ignorable = []string{"raw", "sack-beyond", "sack-gap0", "sack-gap-inverted", "sack-gap-outside", "fwd-stale", "unknown-chunk",
 	"initack", "cookieack", "cookieecho-bad", "init-established", "shutack", "shutcomp", "hback", "hb", "error", "data-dup", "data-beyond",
-	"badlen-short", "badlen-long", "init-badparam", "reconf-unknown-resp", "sack-old", "empty-packet", "abort-bad-checksum", "data-nodata"}
-var c03Forgeries = []string{"mutate", "sack-valid", "fwd-ahead", "data-new", "shutdown", "reconf-reset", "wrong-kind", "abort"}
+	"badlen-short", "badlen-long", "init-badparam", "reconf-unknown-resp", "sack-old", "empty-packet", "abort-bad-checksum", "data-nodata",
+	"sack-far", "fwd-far", "data-far"}
+var c03Forgeries = []string{"mutate", "sack-valid", "fwd-ahead", "data-new", "shutdown", "reconf-reset", "wrong-kind", "abort", "fwd-half"}
+
+// c03FarOff: a 32-bit distance biased to the places where serial-number arithmetic changes
+// its answer (half the number space and its neighbours, quarter points, just below 2^32).
+// Always >= 2^30, i.e. far outside anything in flight or inside a receive window.
+func c03FarOff(a, b int) uint32 {
+	switch a % 9 {
+	case 0:
+		return 0x80000000
+	case 1:
+		return 0x7fffffff
+	case 2:
+		return 0x80000001
+	case 3:
+		return 0x40000000 + uint32(b)
+	case 4:
+		return 0xc0000000 - uint32(b)
+	case 5:
+		return 0xffffffff - uint32(b%50)
+	case 6:
+		return 0x80000000 + uint32(b)
+	case 7:
+		return 0x80000000 - 1 - uint32(b)
+	default:
+		return 0x40000000 + (uint32(a)*40503+uint32(b)*65537)%0x80000000
+	}
+}
 
 func genC03(rt *rapid.T) c03Scn {
 	var x c03Scn
@@ -162,6 +189,20 @@ func c03Craft(s *vfSim, in *c03Inj, wire []vfWireEv) []byte {
 		return mk(wChunk{Type: wtSACK, Cum: pk.NextTSN + uint32(in.A%50), ARwnd: uint32(in.B)})
 	case "sack-old":
 		return mk(wChunk{Type: wtSACK, Cum: pk.CumAck - 1 - uint32(in.A%50), ARwnd: uint32(in.B)})
+	case "sack-far":
+		// acknowledges data that was never sent (or is ancient), at serial-arithmetic boundaries
+		return mk(wChunk{Type: wtSACK, Cum: pk.CumAck + c03FarOff(in.A, in.B), ARwnd: 1 << 20})
+	case "fwd-far":
+		// strictly more than half the number space ahead == behind the cumulative point
+		off := c03FarOff(in.A, in.B)
+		if off <= 0x80000000 {
+			off = 0x80000001 + off/2
+		}
+		return mk(wChunk{Type: fwdT, NewCum: pk.PeerLast + off, FwdStrs: []wFwdStream{{SID: uint16(in.B % 8), SSN: uint16(in.C), MID: uint32(in.C)}}})
+	case "fwd-half":
+		return mk(wChunk{Type: fwdT, NewCum: pk.PeerLast + 0x80000000 - uint32(in.A%2), FwdStrs: []wFwdStream{{SID: uint16(in.B % 8), SSN: uint16(in.C), MID: uint32(in.C)}}})
+	case "data-far":
+		return mk(wChunk{Type: dataT, TSN: pk.PeerLast + c03FarOff(in.A, in.B), SID: uint16(in.B % 6), SSN: uint16(in.C), MID: uint32(in.C), PPI: 53, B: true, E: true, Data: []byte("far-away")})
 	case "sack-gap0":
 		return mk(wChunk{Type: wtSACK, Cum: pk.CumAck, ARwnd: 1 << 20, Gaps: [][2]uint16{{0, uint16(in.A % 5)}}})
 	case "sack-gap-inverted":
